@@ -745,6 +745,10 @@ func (this *LedgerStoreImp) releaseSavingBlockLock() {
 func (this *LedgerStoreImp) submitBlock(block *types.Block, result store.ExecuteResult) error {
 	blockHash := block.Hash()
 	blockHeight := block.Header.Height
+	if blockHeight != 0 && block.Header.PrevBlockHash != this.GetCurrentBlockHash() {
+		return fmt.Errorf("block at height:%d does not extend the current block, prev block hash:%s",
+			blockHeight, block.Header.PrevBlockHash.ToHexString())
+	}
 	blockRoot := this.GetBlockRootWithPreBlockHashes(block.Header.Height, []common.Uint256{block.Header.PrevBlockHash})
 	if block.Header.Height != 0 && blockRoot != block.Header.BlockRoot {
 		return fmt.Errorf("wrong block root at height:%d, expected:%s, got:%s",
